@@ -24,6 +24,29 @@ func one(fs []*ssa.Function) *ssa.Function {
 	if len(fs) == 1 {
 		return fs[0]
 	}
+	if an.InlineHelpers && len(fs) > 1 {
+		// helpers-inline pass: a match that is only a private helper of another match is not a candidate of its own
+		var keep []*ssa.Function
+		for _, f := range fs {
+			sub := false
+			for _, g := range fs {
+				if g == f {
+					continue
+				}
+				for _, h := range an.HelperCallees(g) {
+					if h == f {
+						sub = true
+					}
+				}
+			}
+			if !sub {
+				keep = append(keep, f)
+			}
+		}
+		if len(keep) == 1 {
+			return keep[0]
+		}
+	}
 	return nil
 }
 
